@@ -18,4 +18,6 @@ ENTRIES = [
     Entry('samples-any-temperature', T, [('        if precPoints is None or prevT != T:', '        if precPoints is None:')], 'R12.5/R9.4'),
     Entry('benign-growth-regrouped', M, [('    gr = (curvature.mc / R) * Rdiff', '    gr = curvature.mc * Rdiff / R')], kind='benign'),
     Entry('benign-gibbs-distributed', P, [('        return vmbeta * (strain + 2*thermoFactor*self.gamma / r)', '        return vmbeta * strain + 2*vmbeta*thermoFactor*self.gamma / r')], kind='benign'),
+    Entry('benign-beta-exit-not', 'kawin/precipitation/KWNBase.py', [('            if beta == 0:\n                continue\n', '            if not beta:\n                continue\n')], kind='benign'),
+    Entry('early-exit-small-rate', 'kawin/precipitation/KWNBase.py', [('            # Zeldovich factor\n', '            if beta < 1e-30:\n                continue\n            # Zeldovich factor\n')], 'R12.7'),
 ]
